@@ -21,6 +21,7 @@ tv == <<l, h>>
 Eps      == Units(100000000)      \* 1e-9 of the window: rounding level of a well-conditioned solve
 EpsRF    == Units(100000000)      \* 1e-9 absolute on recovery
 ResidMax == 10000                 \* 1e-11: componentwise backward error of a step (direct solve: ~1e-16)
+ResidMaxF32 == 1000000            \* 1e-9 for tables held in single precision
 ShiftMax == 1000000               \* 1e-9 of the window (C17; bit-identical increments in both runs)
 \* relaxation: elapsed*min-scaled-diffusivity >= E/1000  =>  deviation from the face value <= Dev (of the window)
 Relax1E == 500000       \* rho*T >= 500    => |u - face| <= 1e-2 window   (bound 1/(1+lambda T), lambda >= 2)
@@ -29,11 +30,14 @@ Relax2E == 50000000     \* rho*T >= 5e4    => |u - face| <= 1e-4 window
 Relax2D == <<10000, 0>>       \* 1e-4 * 1e17 = 1e13 = <<10^4, 0>>
 
 H0 == [kind |-> "none", nx |-> 0, constdd |-> FALSE, n |-> 0, mfMin |-> Q2S, mfPrev |-> Q2S, prevU |-> <<>>,
-       everRose |-> FALSE, nonuniform |-> FALSE]
+       everRose |-> FALSE, nonuniform |-> FALSE, residMax |-> ResidMax]
 
 TInit == l = 1 /\ h = H0
 
-StepRun(e) == h' = [H0 EXCEPT !.kind = e.kind, !.nx = e.nx, !.constdd = e.constdd]
+\* a run on a table held in single precision: the wrapper's own lookups (interp1d on float32 columns) carry single-precision
+\* rounding, so the step is the backward-Euler update to 1e-9 only (a history stored in single precision shows 4e-8)
+StepRun(e) == h' = [H0 EXCEPT !.kind = e.kind, !.nx = e.nx, !.constdd = e.constdd,
+                              !.residMax = IF Has(e, "f32table") /\ e.f32table THEN ResidMaxF32 ELSE ResidMax]
 
 Face(e) == IF h.kind = "ideal" THEN QS ELSE e.mf
 
@@ -56,7 +60,7 @@ StepLevel(e) ==
                  THEN {"C01.Relaxes"} ELSE {})
            \cup (IF h.constdd /\ e.relaxE >= Relax2E /\ (\E j \in 1..nx : ~QWithin(e.u[j], Face(e), Relax2D))
                  THEN {"C01.Relaxes"} ELSE {})
-           \cup (IF ~first /\ e.resid > ResidMax THEN {"C04.Residual"} ELSE {})
+           \cup (IF ~first /\ e.resid > h.residMax THEN {"C04.Residual"} ELSE {})
            \cup (IF e.loose THEN {"C04.LooseSolve"} ELSE {})
            \cup (IF nx # h.nx THEN {"Machinery:nx"} ELSE {})
     IN  /\ Report(e, bad)
